@@ -358,6 +358,67 @@ pub struct MatchedValues { pub filter: S }
         rc.val matches Some(v) && v@ == ber_t(mv_filter_spec(assn.filter.s@)->0), //# C19.matched_values_value_is_the_ber_of_the_compiled_filter
 //@end
 
+// Pre-Read / Post-Read constructors (RFC 4527): which OID goes with which control
+pub struct PreRead(pub ReadEntry);
+pub struct PostRead(pub ReadEntry);
+//@lift name=From<PreRead>::from file=src/controls_impl/read_entry.rs impl="impl<S: AsRef<str>>\s+From<PreRead<S>>\s+for\s+RawControl\s*\{" fn=from
+//@ sub "fn from(pr: PreRead<S>) -> RawControl" => "fn pre_read_into_raw(pr: PreRead) -> RawControl"
+//@ ret rc
+//@ spec
+    requires
+        forall|j: int| 0 <= j < pr.0.attrs@.len() ==> (#[trigger] pr.0.attrs@[j]).s.is_ascii(),
+        sel_size(pr.0.attrs@, pr.0.attrs@.len()) <= usize::MAX,
+    ensures
+        rc.ctype@ == pr.0.oid@, rc.crit == false,
+        rc.val matches Some(v) && v@ == ber_t(t_seq(sel_trees(pr.0.attrs@, pr.0.attrs@.len()))),
+//@end
+//@lift name=From<PostRead>::from file=src/controls_impl/read_entry.rs impl="impl<S: AsRef<str>>\s+From<PostRead<S>>\s+for\s+RawControl\s*\{" fn=from
+//@ sub "fn from(pr: PostRead<S>) -> RawControl" => "fn post_read_into_raw(pr: PostRead) -> RawControl"
+//@ ret rc
+//@ spec
+    requires
+        forall|j: int| 0 <= j < pr.0.attrs@.len() ==> (#[trigger] pr.0.attrs@[j]).s.is_ascii(),
+        sel_size(pr.0.attrs@, pr.0.attrs@.len()) <= usize::MAX,
+    ensures
+        rc.ctype@ == pr.0.oid@, rc.crit == false,
+        rc.val matches Some(v) && v@ == ber_t(t_seq(sel_trees(pr.0.attrs@, pr.0.attrs@.len()))),
+//@end
+// `.into()` on the two wrappers is the From impl lifted just above (method-call syntax resolves to these inherent forwards)
+impl PreRead {
+    pub fn into(self) -> (rc: RawControl)
+        requires forall|j: int| 0 <= j < self.0.attrs@.len() ==> (#[trigger] self.0.attrs@[j]).s.is_ascii(), sel_size(self.0.attrs@, self.0.attrs@.len()) <= usize::MAX,
+        ensures rc.ctype@ == self.0.oid@, rc.crit == false, rc.val matches Some(v) && v@ == ber_t(t_seq(sel_trees(self.0.attrs@, self.0.attrs@.len()))),
+    { pre_read_into_raw(self) }
+}
+impl PostRead {
+    pub fn into(self) -> (rc: RawControl)
+        requires forall|j: int| 0 <= j < self.0.attrs@.len() ==> (#[trigger] self.0.attrs@[j]).s.is_ascii(), sel_size(self.0.attrs@, self.0.attrs@.len()) <= usize::MAX,
+        ensures rc.ctype@ == self.0.oid@, rc.crit == false, rc.val matches Some(v) && v@ == ber_t(t_seq(sel_trees(self.0.attrs@, self.0.attrs@.len()))),
+    { post_read_into_raw(self) }
+}
+//@lift name=PreRead::new file=src/controls_impl/read_entry.rs impl="impl<S: AsRef<str>>\s+PreRead<S>\s*\{" fn=new
+//@ sub "fn new(attrs: Vec<S>) -> RawControl" => "fn pre_read_new(attrs: Vec<S>) -> RawControl"
+//@ ret rc
+//@ spec
+    requires
+        forall|j: int| 0 <= j < attrs@.len() ==> (#[trigger] attrs@[j]).s.is_ascii(),
+        sel_size(attrs@, attrs@.len()) <= usize::MAX,
+    ensures
+        rc.ctype@ == "1.3.6.1.1.13.1"@, rc.crit == false, //# C19.pre_read_control_carries_the_pre_read_oid
+        rc.val matches Some(v) && v@ == ber_t(t_seq(sel_trees(attrs@, attrs@.len()))),
+//@end
+//@lift name=PostRead::new file=src/controls_impl/read_entry.rs impl="impl<S: AsRef<str>>\s+PostRead<S>\s*\{" fn=new
+//@ sub "fn new(attrs: Vec<S>) -> RawControl" => "fn post_read_new(attrs: Vec<S>) -> RawControl"
+//@ ret rc
+//@ spec
+    requires
+        forall|j: int| 0 <= j < attrs@.len() ==> (#[trigger] attrs@[j]).s.is_ascii(),
+        sel_size(attrs@, attrs@.len()) <= usize::MAX,
+    ensures
+        rc.ctype@ == "1.3.6.1.1.13.2"@, rc.crit == false, //# C19.post_read_control_carries_the_post_read_oid
+        rc.val matches Some(v) && v@ == ber_t(t_seq(sel_trees(attrs@, attrs@.len()))),
+//@end
+
 // ======================================================================= response parsers (tree level)
 // lber::parse::parse_tag as a function of the bytes (V-lber-dec: the result is a tree of which the consumed bytes are a
 // definite-length encoding); "for every well-formed response value" = the value parses to a tree of the RFC's shape
